@@ -373,8 +373,10 @@ class Volume:
             -temperature * physical_constants['Boltzmann constant in eV/K'][0] * np.log(prob)
         )
 
+        # Use double precision, so that the finite energy assigned to unvisited voxels
+        # exceeds the energy thresholds of the free energy graph for any input dtype
         return FreeEnergyVolume(
-            data=np.nan_to_num(free_energy),
+            data=np.nan_to_num(free_energy.astype(float)),
             lattice=self.lattice,
         )
 
